@@ -40,7 +40,27 @@ func documentText(doc *model.Document) string {
 	var b strings.Builder
 	for _, p := range doc.Pages {
 		for _, el := range p.Elements {
-			fmt.Fprintf(&b, "%v\n", el)
+			switch v := el.(type) {
+			case *model.Paragraph:
+				b.WriteString(v.Text + "\n")
+			case *model.Heading:
+				b.WriteString(v.Text + "\n")
+			case *model.List:
+				for _, it := range v.Items {
+					b.WriteString(it.Bullet + " " + it.Text + "\n")
+				}
+			case *model.Table:
+				for _, row := range v.Rows {
+					for _, c := range row {
+						b.WriteString(c.Text + "\t")
+					}
+					b.WriteString("\n")
+				}
+			case *model.Image:
+				b.WriteString(v.AltText + "\n")
+			default:
+				fmt.Fprintf(&b, "%v\n", el)
+			}
 		}
 	}
 	return b.String()
